@@ -24,7 +24,124 @@ ASSUMPTIONS = [
 F = rel("data_dump")
 
 
+def r1_fold(L, repo):
+    """R1 decided by folding writer and reader: for messages of both classes and payload witnesses of 0, 1, 9, 156,
+    458 and 751 octets (the longest TRXD message), dump_msg() yields HDR_LENGTH header octets + the payload exactly as
+    gen_msg() produced it; parse_hdr() of those header octets yields an object of the SAME class and the payload's
+    length; an object of another class is refused by the writer; a header with any other tag is reported as False by
+    the reader. Returns HDR_LENGTH, or None when the code leaves the evaluator's vocabulary."""
+    from consteval import Instance
+    ci = repo.need_class("data_dump", "DATADump")
+    c, dm = repo.need_method("data_dump", "DATADump", "dump_msg")
+    c, ph = repo.need_method("data_dump", "DATADump", "parse_hdr")
+    M = params(dm)[1]
+    H = params(ph)[1]
+    try:
+        hl = Ev(repo, ci.mod, self_cls=ci).ev(ast.parse("self.HDR_LENGTH", mode="eval").body)
+    except (Unknown, Raised):
+        return None
+    if not isinstance(hl, int):
+        return None
+    hooks_r = {"TxMsg": lambda a: "TxMsg", "RxMsg": lambda a: "RxMsg",
+               "data_msg.TxMsg": lambda a: "TxMsg", "data_msg.RxMsg": lambda a: "RxMsg"}
+    n = 0
+    seen_tags = {}
+    for cls in ("TxMsg", "RxMsg"):
+        mci = repo.need_class("data_msg", cls)
+        for ln in (0, 1, 9, 156, 458, 751):
+            raw = bytes((7 * i + ln) & 0xff for i in range(ln))
+            e = Ev(repo, ci.mod, env={M: Instance(mci)}, self_cls=ci)
+            e.hooks = {"%s.gen_msg" % M: lambda a, raw=raw: bytearray(raw)}
+            try:
+                r = e.run_block(dm.body)
+            except Unknown:
+                return None
+            except Raised as ex:
+                r = ("raises", ex.cls)
+            rec = r[1] if isinstance(r, tuple) and r[0] == "ret" else r
+            ok = isinstance(rec, (bytes, bytearray)) and bytes(rec[hl:]) == raw
+            L.ob("C15.R1", F, "DATADump.dump_msg", "%s of %d octets: record = %d header octets + the message exactly as gen_msg() produced it" % (cls, ln, hl),
+                 "header + payload", "%d octets, payload %s" % (len(rec), "intact" if ok else "differs") if isinstance(rec, (bytes, bytearray)) else repr(rec),
+                 ok, dm.lineno)
+            n += 1
+            if not ok:
+                continue
+            hdr = bytes(rec[:hl])
+            seen_tags.setdefault(cls, set()).add(hdr[:1])
+            e2 = Ev(repo, ci.mod, env={H: hdr}, self_cls=ci)
+            e2.hooks = dict(hooks_r)
+            try:
+                r2 = e2.run_block(ph.body)
+            except Unknown:
+                return None
+            except Raised as ex:
+                r2 = ("raises", ex.cls)
+            got = r2[1] if isinstance(r2, tuple) and r2[0] == "ret" else r2
+            L.ob("C15.R1", F, "DATADump.parse_hdr", "header written for a %s of %d octets is read back as (that class, that length)" % (cls, ln),
+                 (cls, ln), got, isinstance(got, tuple) and len(got) == 2 and got[0] == cls and got[1] == ln, ph.lineno)
+    # another class is refused by the writer
+    for other in ("Msg",):
+        oci = repo.need_class("data_msg", other)
+        e = Ev(repo, ci.mod, env={M: Instance(oci)}, self_cls=ci)
+        e.hooks = {"%s.gen_msg" % M: lambda a: bytearray(b"x")}
+        try:
+            r = e.run_block(dm.body)
+            got = "returns"
+        except Unknown:
+            return None
+        except Raised as ex:
+            got = "raises %s" % ex.cls
+        L.ob("C15.R1", F, "DATADump.dump_msg", "an object that is neither a Tx nor an Rx message is refused", "raises", got,
+             got.startswith("raises"), dm.lineno)
+    # unknown tags
+    used = set().union(*seen_tags.values()) if seen_tags else set()
+    for tag in (b"\x00", b"\x03", b"\x7f", b"\xff"):
+        if tag in used:
+            continue
+        e2 = Ev(repo, ci.mod, env={H: tag + b"\x00\x05"}, self_cls=ci)
+        e2.hooks = dict(hooks_r)
+        try:
+            r2 = e2.run_block(ph.body)
+        except Unknown:
+            return None
+        except Raised as ex:
+            r2 = ("raises", ex.cls)
+        got = r2[1] if isinstance(r2, tuple) and r2[0] == "ret" else r2
+        L.ob("C15.R1", F, "DATADump.parse_hdr", "a header with the unknown tag 0x%02x is reported as False (no exception)" % tag[0],
+             False, got, got is False, ph.lineno)
+    L.ob("C15.R1", F, "DATADump", "the two message classes are written with distinct tags", "distinct",
+         sorted(repr(t) for ts in seen_tags.values() for t in ts),
+         len(seen_tags) == 2 and all(len(ts) == 1 for ts in seen_tags.values()) and len(used) == 2)
+    L.floor("C15.R1", "writer/reader witness pairs folded", n, 12)
+    return hl
+
+
 def r1_framing(L, repo):
+    L.unit(F)
+    L.fn(F, "DATADump.dump_msg")
+    L.fn(F, "DATADump.parse_hdr")
+    hl_f = r1_fold(L, repo)
+    L.extra["c15_framing_folded"] = hl_f is not None
+    if hl_f is not None:
+        _largest_fits(L, repo)
+        return hl_f
+    return r1_framing_shape(L, repo)
+
+
+def _largest_fits(L, repo):
+    dmod = repo.mod("data_msg")
+    mci = repo.need_class("data_msg", "Modulation")
+    mx_bl = max(m.attrs.get("bl", 0) for m in Ev(repo, dmod).enum_members(mci))
+    rci = repo.need_class("data_msg", "RxMsg")
+    known = fold(repo, dmod, ast.parse("Msg.KNOWN_VERSIONS", mode="eval").body)
+    mx_hdr = 0
+    for v in known:
+        mx_hdr = max(mx_hdr, Ev(repo, dmod, env={"self.ver": v}, self_cls=rci).ev(ast.parse("self.HDR_LEN", mode="eval").body))
+    L.ob("C15.R1", F, "DATADump", "largest encodable message (%d header + %d burst + 2 padding) fits the 16-bit length" % (mx_hdr, mx_bl),
+         "< 65536", mx_hdr + mx_bl + 2, mx_hdr + mx_bl + 2 < 65536)
+
+
+def r1_framing_shape(L, repo):
     L.unit(F)
     ci = repo.need_class("data_dump", "DATADump")
     mod = ci.mod
@@ -358,8 +475,14 @@ def r3_skip_count(L, repo, hl):
     fw = Fwd()
     fw.run(am.body)
     P = params(am)[1]
-    L.require("C15.R3", F, "DATADumpFile.append_msg", "append writes exactly dump_msg(msg)",
-              [((), "self.f.write(self.dump_msg(%s))" % P)], [(tuple(c), e) for c, e in fw.effects])
+    import re as _re
+    file_eff = [(tuple(c), e) for c, e in fw.effects if _re.search(r"\bself\.f\b", e) and not e.startswith("log.")]
+    L.require("C15.R3", F, "DATADumpFile.append_msg", "append writes exactly dump_msg(msg) (effects on the capture file)",
+              [((), "self.f.write(self.dump_msg(%s))" % P)], file_eff)
+    # (effects on other state - counters, log lines - do not concern the capture)
+    rets_ = [r for c_, r in fw.returns if r is not None]
+    L.ob("C15.R3", F, "DATADumpFile.append_msg", "append cannot be skipped (no early return / raise before the write)",
+         "no conditional exit", [canon(r) for r in rets_][:3] + [x[1] for x in fw.raises][:3], not fw.raises and not any(c_ for c_, r in fw.returns))
     ci, aa = repo.need_method("data_dump", "DATADumpFile", "append_all")
     lp = [n for n in ast.walk(aa) if isinstance(n, ast.For)]
     P = params(aa)[1]
